@@ -53,6 +53,42 @@ def enriched():
     L2[14] = Line(L2[14].pieces + [SP(), P("cmt", "/* eol */")], "simple", 1)
     L2[17] = Line([P("sp", "  ")] + L2[17].pieces[1:], "simple", 2)
     out.append({"ftype": ".c", "fname": fname, "pre": pre, "lines": L2, "text": norm.render(pre + L2), "ids": ("enriched-bad",)})
+    # expression-rich files: every atom kind of the expression grammar in a statement of its own
+    from . import c01_expr as ce
+    fname = "exprs.c"
+    pre = norm.preamble(".c", fname)
+    atoms = [(lab, e) for lab, e, _ in ce.i_atoms()]
+    stmts = []
+    for k, (lab, e) in enumerate(atoms):
+        if lab in ce.SIDE_EFFECT:
+            stmts.append(stmt_line(1, ctrl("while", e), "ctrl"))
+            stmts.append(stmt_line(2, call("ft_step", [V("n")]) + [P("semi", ";")], "simple"))
+        else:
+            stmts.append(stmt_line(1, assign(V("res"), "=", e), "simple"))
+    stmts.append(stmt_line(1, assign(V("res"), "=", binop(norm.paren(V("n")), "-", C("1"))), "simple"))
+    stmts.append(stmt_line(1, assign(V("res"), "=", binop(norm.paren(V("len")), "+", V("n"))), "simple"))
+    stmts.append(stmt_line(1, assign(V("res"), "=", binop(norm.cast("t_size", 0, V("n")), "*", norm.sizeof(V("len")))), "simple"))
+    for lab, e in ce.p_atoms():
+        stmts.append(stmt_line(1, assign(V("p"), "=", e), "simple"))
+    # glued forms around a parenthesised identifier (a cast of a signed constant is an idiom; the value forms violate)
+    for inner, cls in (("t_size", "typename"), ("len", "var"), ("cnt_t", "typename")):
+        for sign in ("-", "+"):
+            stmts.append(stmt_line(1, assign(V("res"), "=", [P("lp", "("), ID(cls, inner), P("rp", ")"), P("unop", sign)] + C("1")), "simple"))
+    chunk = 20
+    for fi in range(0, len(stmts), chunk):
+        L = []
+        L.append(Line(norm.sig_line("", "int", 0, f"ft_exprs{fi // chunk}", [("int", 0, "n", ""), ("char", 1, "p", ""), ("char", 0, "c", ""),
+                                                                           ("t_list", 1, "lst", "")]), "funcsig"))
+        L.append(Line([P("lbrace", "{")], "lbrace"))
+        L.append(Line(norm.decl_pieces("t_point", 0, "pt", "", 13, 1), "decl", 1))
+        L[-1].pieces.append(P("semi", ";"))
+        L.append(Line(norm.decl_pieces("int", 0, "res", "", 13, 1) + [P("semi", ";")], "decl", 1))
+        L.append(Line(norm.decl_pieces("int", 0, "len", "", 13, 1) + [P("semi", ";")], "decl", 1))
+        L.append(Line([], "empty"))
+        L += stmts[fi:fi + chunk]
+        L.append(stmt_line(1, ret(V("res")), "return"))
+        L.append(Line([P("rbrace", "}")], "rbrace"))
+        out.append({"ftype": ".c", "fname": fname, "pre": pre, "lines": L, "text": norm.render(pre + L), "ids": (f"exprs{fi // chunk}",)})
     fname = "rich.h"
     pre = norm.preamble(".h", fname)
     H = []
